@@ -79,6 +79,7 @@ TOLERANCES = {
     "zero-filter-live-pixels": 0.0,
     "zero-filter-interpolated": 1e-12,
     "detrend-plane-removed": 1e-11,
+    "detrend-signal-kept-min": 0.01,
     "accumulator-mean": 1e-12,
     "accumulator-std": 1e-12,
     "centre-error-px": 1.0,
@@ -94,6 +95,7 @@ META = ["M0", "M1"]
 
 # centre finder
 DETECTORS = [60, 100, 160]
+NONSQUARE = [(60, 100), (100, 60), (160, 100)]
 RNZ = [(0.5, 1.59, 10.0), (0.3, 1.45, 6.0), (1.0, 1.59, 20.0),
        (0.5, 1.40, 15.0)]
 OFFSETS = [(0.33, -0.17), (0.0, 0.0), (0.5, 0.5), (-0.17, 0.33)]
@@ -235,6 +237,10 @@ def _lattice(N):
     return [float(v) for v in np.linspace(0.2 * N, 0.8 * N, LATTICE_N)]
 
 
+def _nxy(N):
+    return (N, N) if np.isscalar(N) else (int(N[0]), int(N[1]))
+
+
 def cases(tier, seed):
     out = []
     for (nx, ny) in SHAPES[tier]:
@@ -274,6 +280,23 @@ def cases(tier, seed):
                               (N, k, i, j, o),
                         "kind": "centre", "N": N, "rnz": k, "i": i, "j": j,
                         "off": o, "tier": tier})
+    # non-square detectors (rows != columns): reduced lattice
+    if tier == "quick":
+        nsq, pts, rnzs, offs = NONSQUARE[:1], [(0, 0), (2, 2), (4, 4)], \
+            [0, 2], [0]
+    else:
+        nsq, pts, rnzs, offs = NONSQUARE, \
+            [(i, j) for i in (0, 2, 4) for j in (0, 2, 4)], \
+            range(len(RNZ)), [0, 3]
+    for N in nsq:
+        for k in rnzs:
+            for (i, j) in pts:
+                for o in offs:
+                    out.append({
+                        "id": "centre:N=%dx%d:rnz#%d:lat=%d,%d:off#%d" %
+                              (N[0], N[1], k, i, j, o),
+                        "kind": "centre", "N": list(N), "rnz": k, "i": i,
+                        "j": j, "off": o, "tier": tier})
     # make_center_priors: origin x spacing x uncertainty
     for N in ([60] if tier == "quick" else [60, 100]):
         for k in ([0, 2] if tier == "quick" else range(len(RNZ))):
@@ -520,8 +543,9 @@ def _check_crop(ck, sub, im, snap, lo, sizes, what, three_d):
     for y in ys:
         w = np.nonzero(oy == y)[0]
         iy.append(int(w[0]) if w.size == 1 else -1)
-    if min(ix + iy + [0]) < 0 or vals.shape != (len(ix), len(iy)):
-        okc = False
+    if (not ix or not iy or min(ix + iy) < 0
+            or vals.shape != (len(ix), len(iy))):
+        okc = False                   # empty crop / unknown coordinates
     else:
         # contiguous, increasing block of the original
         okc = (ix == list(range(ix[0], ix[0] + len(ix))) and
@@ -757,6 +781,16 @@ def _run_detrend(case, ck):
                            "%s: shape %r" % (what0, a0.shape)):
                 continue
             acc.append(np.round(a0, 7))
+            if kind == "mixed":
+                # vacuity guard: "removes any added plane" is trivially true
+                # of a detrend that annihilates every image; the strongly
+                # non-planar image must survive (observed ratio >= 0.69)
+                rr = float(np.abs(a0).max() / np.abs(v - v.mean()).max())
+                ck.metric("detrend-signal-kept-deficit", 1.0 - rr)
+                ck.true("detrend-nondegenerate",
+                        rr >= TOLERANCES["detrend-signal-kept-min"],
+                        "%s: a non-planar image was flattened to %.3g of "
+                        "its variation" % (what0, rr))
             for (a, b, c) in itertools.product(PLANE, repeat=3):
                 plane = a + b * i + c * j
                 what = "detrend(%s %dx%d %s + plane %g%+g*i%+g*j)" % (
@@ -792,20 +826,47 @@ def _acc_images(nx=4, ny=5):
     ]
 
 
-def _acc_sequence(ck, arrs, order, what, as_image=True):
+def _acc_sequence(ck, arrs, order, what, as_image=True, running=False):
     from holopy.core.io.io import Accumulator
     acc = Accumulator()
     ims = []
     snaps = []
-    for k in order:
+    for npush, k in enumerate(order, 1):
         x = _mk(arrs[k], "M0") if as_image else np.array(arrs[k])
         ims.append(x)
         if as_image:
             snaps.append(_Snap(x))
         acc.push(x)
         ck.trans += 1
+        if running and npush < len(order):
+            # the running values after every push are the batch values of
+            # the prefix (and asking for them does not disturb the state)
+            pre = np.array([arrs[q] for q in order[:npush]], dtype=float)
+            pm = np.asarray(getattr(acc.mean(), "values", acc.mean()),
+                            dtype=float)
+            ps = np.asarray(getattr(acc.std(), "values", acc.std()),
+                            dtype=float)
+            ck.trans += 2
+            sc = float(np.abs(pre).max())
+            if pm.size == pre[0].size and ps.size == pre[0].size:
+                e = float(np.abs(pm.reshape(pre[0].shape) -
+                                 pre.mean(axis=0)).max() / sc)
+                ck.metric("accumulator-mean", e)
+                ck.true("accumulator-running-mean",
+                        e <= TOLERANCES["accumulator-mean"],
+                        "%s: after %d pushes the mean differs from the "
+                        "batch mean of the prefix by %.3g" % (what, npush, e))
+                e = float(np.abs(ps.reshape(pre[0].shape) -
+                                 pre.std(axis=0)).max() / sc)
+                ck.metric("accumulator-std", e)
+                ck.true("accumulator-running-std",
+                        e <= TOLERANCES["accumulator-std"],
+                        "%s: after %d pushes the std differs from the "
+                        "batch std of the prefix by %.3g" % (what, npush, e))
+    acc.std()
+    acc.mean()                        # a repeated query changes nothing
     m, s = acc.mean(), acc.std()
-    ck.trans += 2
+    ck.trans += 4
     stack = np.array([arrs[k] for k in order], dtype=float)
     rm = stack.mean(axis=0)
     rs = stack.std(axis=0)           # population value (ddof=0)
@@ -845,6 +906,9 @@ def _run_acc(case, ck):
     first = None
     for order in itertools.permutations(members):
         what = "Accumulator pushes %r" % (list(order),)
+        # (second pass with the running values queried after every push)
+        _acc_sequence(ck, arrs, order, what + " (queried after every push)",
+                      True, running=True)
         r = _acc_sequence(ck, arrs, order, what, True)
         if r is None:
             continue
@@ -888,7 +952,7 @@ def _holo(N, rnz, centre_phys, spacing=SPACING, origin=(0.0, 0.0)):
     from holopy.core.metadata import detector_grid
     from holopy.scattering import calc_holo, Sphere, Mie
     r, n, z = rnz
-    det = detector_grid(N, spacing)
+    det = detector_grid(N if np.isscalar(N) else list(N), spacing)
     if tuple(origin) != (0.0, 0.0):
         det = det.assign_coords(x=det.x + origin[0], y=det.y + origin[1])
     sph = Sphere(n=n, r=r, center=(centre_phys[0], centre_phys[1], z))
@@ -899,12 +963,13 @@ def _run_centre(case, ck):
     from holopy.core.process import center_find
     N = case["N"]
     rnz = RNZ[case["rnz"]]
-    lat = _lattice(N)
+    nx, ny = _nxy(N)
     off = OFFSETS[case["off"]]
-    px = lat[case["i"]] + off[0]
-    py = lat[case["j"]] + off[1]
-    what = ("center_find(Mie hologram, detector %d px, sphere r=%g n=%g "
-            "z=%g at pixel (%.2f, %.2f))" % ((N,) + tuple(rnz) + (px, py)))
+    px = _lattice(nx)[case["i"]] + off[0]
+    py = _lattice(ny)[case["j"]] + off[1]
+    what = ("center_find(Mie hologram, detector %dx%d px, sphere r=%g n=%g "
+            "z=%g at pixel (%.2f, %.2f))" % ((nx, ny) + tuple(rnz) +
+                                            (px, py)))
     holo = _holo(N, rnz, (px * SPACING, py * SPACING))
     ck.trans += 1
     snap = _Snap(holo)
@@ -1017,7 +1082,7 @@ def coverage_extra(cases, results):
         "subimage_crops_accepted": crops,
         "subimage_crops_refused_by_assertion": refused,
         "zero_filter_pair_executions": pairs,
-        "centre_finder": {"detectors": DETECTORS, "rnz": RNZ,
+        "centre_finder": {"detectors": DETECTORS, "nonsquare": NONSQUARE, "rnz": RNZ,
                           "offsets_px": OFFSETS[:1] if tier == "quick"
                           else OFFSETS,
                           "lattice": "%dx%d over central 60%%" %
